@@ -124,6 +124,9 @@ VECTOR_TYPE = re.compile(r"^(float|int|uint|bool|half|double|min16float|min16int
                          r"[1-4](x[1-4])?$")
 
 
+NUMBERED_GENERATED = re.compile(r"^(set|InlineDescriptor|g_inlineDescriptor)\d+$")
+
+
 def finding_key(req, obs, detail):
     """Key of an oracle failure = <defect site>/<mechanical key>.  The mechanical key is printed by the harness
     (`FAIL:<mechanical key> | <text>`) and names the target, the check that failed and the kinds of the entities
@@ -142,6 +145,14 @@ def finding_key(req, obs, detail):
         if mech.startswith("capture-builtin:") and m and VECTOR_TYPE.match(m.group(1)):
             return "res:vector-type-names-not-reserved/capture-builtin:%s:vector-type" % mech.split(":")[1]
         site, key = res_key(mech)
+        if site == "generated-names-not-reserved":
+            # the open defect is about the NUMBERED identifiers the exporters build with format! (`set<i>`, `InlineDescriptor<n>`,
+            # `g_inlineDescriptor<n>`); the fixed generated names (implicit parameters, stage locals, wrapper names) are
+            # reserved (introduced_names_reserved_as_modelled): a clash with one of those is never known
+            m = re.search(r"declared as '(\w+)'", d) or re.search(r"\| '([\w:]+)' printed for", d)
+            name = m.group(1) if m else ""
+            if not any(NUMBERED_GENERATED.match(c) for c in name.split("::")):
+                return "%s:fixed-name:%s" % (key, name)
         return key if site is None else "res:" + site + "/" + key
     root = root_cause(mech)
     if root is None:
